@@ -1,6 +1,7 @@
 import RsModel.Lemmas.CodecLookup
 import RsModel.Lemmas.Replay
 import RsModel.Lemmas.PosTree
+import RsModel.Lemmas.ModeTree2
 /-!
 # C03 — `map()` attributes every position exactly as the chunk stream does
 (T1 of DESIGN: the codec step of the chain.)
@@ -61,5 +62,80 @@ theorem c03_replace (inner : Src) (rs : List Repl) (σ : Store) (hne : rs ≠ []
   have := (c03_map_of_stream _ hpos (Src.stream_tok _ true σ) (Src.stream_tl _ true σ) hsmall).1 sm hsm
   rw [Src.stream_text _ true σ hw] at this
   exact this
+
+
+/-! ## T3: `map()` is built from the text-less stream — and that stream attributes like the normal one -/
+
+theorem attrFrom_nil_ms : ∀ (t : Text) (p : Pos), attrFrom [] p t = List.replicate t.length none := by
+  intro t
+  induction t with
+  | nil => intro p; rfl
+  | cons c cs ih => intro p; simp only [attrFrom, ih, List.length_cons, List.replicate_succ]; rfl
+
+/-- **T3** (columns = true): for every tree of Raw / Original / SourceMapSource leaves (no inner map; ASCII text, sorted map
+inside the text) under ConcatSource and ReplaceSource nodes to any depth (`ModeHyp`; no CachedSource), the text-less stream
+that `map()` consumes (i) is sorted by generated position, (ii) announces exactly the sources and names the normal stream
+announces, in the same order, and (iii) resolves the position of every character of `source()` — last chunk mapping on that line
+at or before the column — to the same original location as the normal stream an outside caller obtains. -/
+theorem c03_modes (s : Src) (h : s.ModeHyp) :
+    sortedFrom 1 0 (chunkMs (s.stream ⟨true, true⟩ []).1.evs)
+    ∧ declsOf (s.stream ⟨true, true⟩ []).1.evs = declsOf (s.stream ⟨true, false⟩ []).1.evs
+    ∧ LookEq s.src (chunkMs (s.stream ⟨true, true⟩ []).1.evs) (chunkMs (s.stream ⟨true, false⟩ []).1.evs) :=
+  ⟨(Src.m3 s h).sorted, (Src.m3 s h).decls, (Src.m3 s h).look⟩
+
+/-- **C03 for every such tree whose `map()` is `get_map`** (OriginalSource, ConcatSource, ReplaceSource roots; columns = true):
+resolving every position of `source()` through the returned SourceMap gives exactly the original location carried by the chunk
+that covers the position in the normal-mode stream, and no map is returned exactly when no streamed chunk is mapped.
+Chain: T1 (codec) ∘ T3 (modes) ∘ `attr_of_stream` (C02 + tokens). `small` = values below 2³¹ (the codec's domain). -/
+theorem c03_tree (s : Src) (h : s.ModeHyp) (final : Bool) (hsmall : ∀ m ∈ chunkMs (s.stream ⟨true, true⟩ []).1.evs, m.small) :
+    (∀ sm, (getMap s ⟨true, final⟩ []).1 = some sm → attrFrom (decode sm.mappings) startPos s.src = attrOf (s.stream ⟨true, false⟩ []).1.evs)
+    ∧ ((getMap s ⟨true, final⟩ []).1 = none → attrOf (s.stream ⟨true, false⟩ []).1.evs = List.replicate s.src.length none) := by
+  obtain ⟨b1, b2, b3, b4, _, _, _⟩ := Src.base_facts s h
+  have hm := Src.m3 s h
+  have hN : attrFrom (chunkMs (s.stream ⟨true, false⟩ []).1.evs) startPos s.src = attrOf (s.stream ⟨true, false⟩ []).1.evs := by
+    have := attr_of_stream _ b1 b2 b3
+    rw [b4] at this
+    exact this
+  have hFN := (lookEq_iff s.src _ _).1 hm.look
+  constructor
+  · intro sm hsm
+    simp only [getMap] at hsm
+    rw [mapOfEvs_mappings _ sm hsm, ← hN, ← hFN]
+    apply attrFrom_congr
+    intro q _ _
+    exact c03_codec_step _ hsmall hm.sorted q.line q.col
+  · intro hnone
+    simp only [getMap] at hnone
+    have henc := mapOfEvs_none _ hnone
+    rw [← hN, ← hFN, ← attrFrom_nil_ms s.src startPos]
+    apply attrFrom_congr
+    intro q _ _
+    have := c03_codec_step _ hsmall hm.sorted q.line q.col
+    rw [henc] at this
+    rw [← this]
+    rfl
+
+/-- `map()` of a ConcatSource or an OriginalSource is `get_map` -/
+theorem c03_map_is_getMap (cs : SrcList) (t name : Text) (o : Opts) (σ : Store) :
+    (Src.concat cs).map o σ = getMap (.concat cs) o σ ∧ (Src.orig t name).map o σ = getMap (.orig t name) o σ := ⟨rfl, rfl⟩
+
+/-- non-vacuity: a ConcatSource of an OriginalSource, raw text and a SourceMapSource (map `AAAA` on "ab") is in the domain -/
+example : (Src.concat (.cons (.orig [120, 59, 10, 121] [102]) (.cons (.rawStr [59]) (.cons
+    (.sms [97, 98] [103] (SMap.mk [65, 65, 65, 65] [[104]] [] [] none none none) none none false) .nil)))).ModeHyp := by
+  have hdec : decode [65, 65, 65, 65] = [⟨1, 0, some ⟨0, 1, 0, none⟩⟩] := by decide
+  refine ⟨trivial, trivial, ⟨rfl, by decide, by decide, ?_, ?_, ?_⟩, trivial⟩
+  · rw [hdec]; exact ⟨Or.inr ⟨rfl, Nat.le_refl _⟩, trivial⟩
+  · intro m hm
+    rw [hdec] at hm
+    simp only [List.mem_singleton] at hm
+    subst hm
+    exact ⟨⟨by decide, fun _ => by decide⟩, fun _ => by decide, by decide⟩
+  · intro m hm o ho
+    rw [hdec] at hm
+    simp only [List.mem_singleton] at hm
+    subst hm
+    simp only [Option.some.injEq] at ho
+    subst ho
+    exact ⟨by decide, fun k hk => by cases hk⟩
 
 end Rs
